@@ -1454,7 +1454,7 @@ def floors(tier: str) -> dict[str, int]:
         "sweep_programs": 12000,
         "local_binding_triples": 3500,
         "reshaped_data_triples": 2500,
-        "set:data_shapes": 9,
+        "set:data_shapes": 15,
         "inner_variable_deletion_triples": 150,
         "empty_data_complete_triples": 60,
         "lambda_scope_triples": 300,
